@@ -619,6 +619,10 @@ def cmp_num(name, got, ref, dec, bad):
     if np.iscomplexobj(got) or np.iscomplexobj(ref):  # real and imaginary parts are printed separately
         got = np.stack([np.real(got), np.imag(got)])
         ref = np.stack([np.real(ref), np.imag(ref)])
+    if got.dtype.kind == "f" and ref.dtype.kind == "f" and np.isnan(ref).any():
+        # the library itself reports "not a number" there (overflow in the thermal functions for h nu >> k T): nothing to compare
+        keep = ~np.isnan(ref)
+        got, ref = got[keep], ref[keep]
     d = float(np.max(np.abs(got - ref))) if got.size else 0.0
     if not d <= tol + 1e-13 * float(np.max(np.abs(ref)) if ref.size else 0):
         bad.append((name, "maxdiff %.3e > printed precision %.1e" % (d, tol)))
